@@ -354,6 +354,12 @@ def check_cond(ctx, cond, label):
             ctx.vc_log.append({'label': label, 'stage': 'concrete-true'})
             return
         raise Violation(label, 'condition is concretely false on this path', witness(ctx))
+    if isinstance(cond, SBool) and isinstance(cond.c, bool):
+        if cond.c:
+            st.vcs_trivial += 1
+            ctx.vc_log.append({'label': label, 'stage': 'concrete-true'})
+            return
+        raise Violation(label, 'condition is concretely false on this path', witness(ctx))
     if not isinstance(cond, SBool):
         raise Escape(f'symx: check() of {type(cond).__name__}')
     rec = {'label': label}
